@@ -622,6 +622,8 @@ def _gen_hom(rng):
         for mod in Mx:
             mod[mi] = [Fx[0][fi][j] + s * d[j] for j in range(3)]
     minA, maxI, q, thr = _cfg(rng, rng.random() < 0.04)
+    if k == 0 and minA == 0:
+        minA = 1          # zero anchors (np.quantile of an empty array) is outside the property (n >= 1): unmodelled
     lst = lambda a: ",".join(str(i) for i in a) if a else "_"   # noqa: E731
     return {"kind": "hom",
             "ops": [f"hom {dimF} {mf} {totF} {dimM} {mm} {totM} {_toks(_flatten(Fx))} {_toks(_flatten(Mx))} "
